@@ -85,12 +85,13 @@ theorem c17_volume_triple (B : Cell) : det B = B.b.dot (B.c.cross B.a) ∧ det B
 
 /-! ### completeness of the cell through trajectory operations -/
 
-/-- after any history of the operations of C03's model, every trajectory that has a cell has one entry per frame -/
+/-- after any history of the operations of C03's model, every trajectory that has a cell has one entry per frame (`SafeRun`: the side
+condition of C03's invariant for in-place assignment through views; it does not concern the cell, it is inherited from that theorem) -/
 theorem c17_cell_complete_invariant {F T : Type} (ops : TrajModel.FrameOps F T) (w : TrajModel.World F T)
-    (l : List (TrajModel.Op F)) (hI : TrajModel.Inv ops w) :
+    (l : List (TrajModel.Op F)) (hI : TrajModel.Inv ops w) (hs : TrajModel.SafeRun ops w l) :
     ∀ t ∈ (TrajModel.run ops w l).trajs, ∀ c, t.cell = some c → c.length = t.rows.length ∧ t.time.length = t.rows.length := by
   intro t ht c hc
-  have h := (TrajModel.c03_cache_invariant ops w l hI t ht).1
+  have h := (TrajModel.c03_cache_invariant ops w l hI hs t ht).1
   exact ⟨h.2.1 c hc, h.1⟩
 
 theorem c17_have_iff (s : CellState) : haveUnitcell s = true ↔ s.lengths.isSome ∧ s.angles.isSome := by
